@@ -14,5 +14,24 @@ def run_engines(tier, seed):
     return eng_history.run_engine(tier, seed)
 
 def replay(path):
-    print(open(path).read())
-    return 0
+    """./check C02 --replay FILE: run the script lines of FILE (LOAD ... / OP ...; '#' lines ignored) through hwloc and the model with
+    both XML back ends, print the judged steps, exit 1 if any step is judged differently from the expected verdict or hwloc aborts."""
+    import os, shutil
+    from common import build_harness, lake_build, BUILD
+    from diffrun import read_lines
+    import gen_tables
+    gen_tables.generate_all()
+    lake_build(["hwmodel"])
+    binp = build_harness("history")
+    script = [l for l in read_lines(path) if l.strip() and not l.startswith("#")]
+    d = os.path.join(BUILD, "run", "history-replay-%d" % os.getpid())
+    bad = 0
+    try:
+        for lx in (0, 1):
+            print(eng_history.annotate(binp, d, script, lx))
+            if eng_history.script_fails(binp, d, script, lx):
+                bad += 1
+    finally:
+        shutil.rmtree(d, ignore_errors=True)
+    print("REPLAY: %s" % ("DIFFERS / FAILS" if bad else "all steps judged as expected"))
+    return 1 if bad else 0
